@@ -216,6 +216,17 @@ func exec11on(in *inst11, tr *Trace11, probe func(string)) (string, *fail) {
 
 func genAztecText(r *kit.RNG, n int) []int {
 	var out []int
+	if r.Chance(1, 12) {
+		// GS (FNC1) early in the message: after one letter, after two digits, first
+		switch r.Intn(3) {
+		case 0:
+			out = append(out, 'A'+r.Intn(26), 29)
+		case 1:
+			out = append(out, '0'+r.Intn(10), '0'+r.Intn(10), 29)
+		default:
+			out = append(out, 29)
+		}
+	}
 	if r.Chance(1, 10) {
 		// almost nothing but two-character punctuation codes: more than two
 		// decoded bytes per five message bits
@@ -254,7 +265,7 @@ func genAztecText(r *kit.RNG, n int) []int {
 				out = append(out, int(p[r.Intn(len(p))]))
 			}
 		case 4:
-			mixed := []int{1, 2, 7, 8, 9, 10, 13, 27, 28, 31, '@', '\\', '^', '_', '`', '|', '~', 127}
+			mixed := []int{1, 2, 7, 8, 9, 10, 13, 27, 28, 29, 31, '@', '\\', '^', '_', '`', '|', '~', 127}
 			for i := 0; i < seg && i < 4; i++ {
 				out = append(out, mixed[r.Intn(len(mixed))])
 			}
